@@ -191,7 +191,7 @@ pub fn alphabet(thorough: bool) -> Vec<Call> {
     let st = |id| T::M(id, Master::Start);
     let en = |id| T::M(id, Master::End);
     let mut v = vec![
-        Call::W(st(ROOT), Opt::Default), Call::W(st(ROOT), Opt::Unknown), Call::W(en(ROOT), Opt::Default),
+        Call::W(st(ROOT), Opt::Default), Call::W(st(ROOT), Opt::Unknown), Call::W(st(ROOT), Opt::Width(1)), Call::W(en(ROOT), Opt::Default),
         Call::W(st(PARENT), Opt::Default), Call::W(st(PARENT), Opt::Width(1)), Call::W(st(PARENT), Opt::Unknown), Call::W(en(PARENT), Opt::Default),
         Call::W(T::U(UINT, 5), Opt::Default), Call::W(T::U(UINT, 300), Opt::Width(2)),
         Call::W(T::I(INT, -3), Opt::Default), Call::W(T::F(FLT, 1.5), Opt::Default),
